@@ -18,7 +18,7 @@ PATHS = ["p", "q", "d/r", "d/e/s", "t.txt", "a b", "d.x"]
 # every random history also gets three names from this list (seed C06-D: a file name containing `..` made the archive
 # look tampered). None is a directory prefix of another or of PATHS; none ends in the reserved staging suffix.
 EXOTIC = ["v1..v2.diff", ".hidden", "d/.e", "UP.txt", "up.txt", "a'b", "nl\nx", "é", "-dash", "tab\tz", "d/e/..s", "sp dir/f",
-          "q.conflict-vh-000000000000", "~t", "$v", "Q3%20R.txt", "d/%41%zz", "100%.txt", "star*", "d..d/f", "...", "a\\b", "%p", "d/e/s.bak", "zz/.copia/x"]
+          "q.conflict-vh-000000000000", "~t", "$v", "Q3%20R.txt", "d/%41%zz", "100%.txt", "star*", "d..d/f", "...", "a\\b", "%p", "d/e/s.bak", "zz/.copia/x", ".copia/commit.lock", ".copia/notes"]
 
 
 def archive_trust(raw, stem):
@@ -145,7 +145,7 @@ def gen_history(rng, length, c07=False):
             ops.append(("recreate", rng.pick("AB"), rng.pick(PATHS)))    # re-create a path with content it had before
         if rng.coin(1, 2) or i == length - 1:
             if c07 and rng.coin(1, 2):
-                ops.append(("fault", rng.below(12), rng.next()))
+                ops.append(("fault", rng.below(15), rng.next()))
             ops.append(("bisync",))
     return ops
 
@@ -178,6 +178,14 @@ def apply_fault(sb, kind, rnd):
         shutil.move(ap, ap + ".bak"); return "only-.bak"
     if kind == 11:
         shutil.move(ap, ap + ".tmp"); return "only-.tmp"
+    if kind in (12, 13):
+        # valid JSON, this pair's hash, the entries intact — one of the five members missing (every member is required: a record
+        # that does not SAY it is format 1 of this pair is not one)
+        j = json.loads(raw); m = ["format_version", "root_pair_hash", "epoch", "host_id", "entries", "format_version"][rnd % 6]
+        j.pop(m, None); open(ap, "wb").write(json.dumps(j).encode()); return f"member-missing={m}"
+    if kind == 14:
+        j = json.loads(raw); m = ["format_version", "root_pair_hash", "format_version"][rnd % 3]
+        j[{"format_version": "version", "root_pair_hash": "pair"}[m]] = j.pop(m); open(ap, "wb").write(json.dumps(j).encode()); return f"member-renamed={m}"
     return None
 
 
@@ -321,6 +329,13 @@ def run(pid, tier, seed, rundir, model_run):
     LONG = "n" * 250
     corpus.append([("write", "A", LONG, b"one\n"), ("write", "A", "p", b"3"), ("bisync",), ("bisync",), ("write", "B", "q", b"two two\n"), ("bisync",)])
     corpus.append([("both", "p", b"one\n", b"one\n"), ("bisync",), ("write", "B", "d/" + LONG, b"two two\n"), ("write", "A", "p", b"3"), ("bisync",), ("bisync",), ("bisync",)])
+    # (seed C02-J) a replica root may itself hold a directory named `.copia` (it is, or was, served as a hub): its files are user
+    # files like any others, on both sides, whether or not one side also holds `.copia/commit.lock`
+    corpus.append([("both", ".copia/notes", b"one\n", b"one\n"), ("write", "A", ".copia/todo", b"3"), ("bisync",),
+                   ("write", "A", ".copia/commit.lock", b""), ("write", "A", ".copia/notes", b"two two\n"), ("write", "B", ".copia/notes", b"four-four-four-four\n"),
+                   ("write", "A", ".copia/new", b"ONE\n"), ("bisync",), ("bisync",)])
+    corpus.append([("write", "B", ".copia/commit.lock", b""), ("write", "A", ".copia/x", b"one\n"), ("write", "B", ".copia/y", b"3"), ("bisync",),
+                   ("delete", "A", ".copia/y"), ("write", "B", ".copia/x", b"two two\n"), ("bisync",), ("bisync",)])
     histories = [(h, "corpus") for h in corpus] + [(None, "random") for _ in range(n_hist)]
     for hi, (hops, hkind) in enumerate(histories):
         length = rng.range(2, 12)
